@@ -125,6 +125,18 @@ pub fn conv_ty(t: &Type, adts: &dyn Fn(&str) -> bool, generics: &BTreeSet<String
                 Ok(Ty::Tuple(tt.elems.iter().map(|x| conv_ty(x, adts, generics, self_ty)).collect::<R<Vec<_>>>()?))
             }
         }
+        Type::Array(a) => {
+            // [T; N] with a literal N is modelled as the N-tuple
+            let n = match &a.len {
+                Expr::Lit(ExprLit { lit: Lit::Int(i), .. }) => i.base10_parse::<usize>().map_err(|e| e.to_string())?,
+                _ => return Err(unsupported(t, "array type whose length is not a literal")),
+            };
+            if n < 2 || n > 8 {
+                return Err(unsupported(t, "array type of length < 2 or > 8"));
+            }
+            let e = conv_ty(&a.elem, adts, generics, self_ty)?;
+            Ok(Ty::Tuple(vec![e; n]))
+        }
         Type::Path(p) if p.qself.is_none() => {
             let seg = p.path.segments.last().unwrap();
             let name = seg.ident.to_string();
@@ -151,7 +163,7 @@ pub fn conv_ty(t: &Type, adts: &dyn Fn(&str) -> bool, generics: &BTreeSet<String
                 "Range" => Ok(Ty::Range(Box::new(arg1(seg)?))),
                 "RangeInclusive" => Ok(Ty::RangeIncl(Box::new(arg1(seg)?))),
                 n if p.path.segments.len() == 1 && generics.contains(n) => Ok(Ty::Param(name)),
-                n if adts(n) => Ok(Ty::Adt(name)),
+                n if adts(n) => Ok(if adts(&format!("extern:{}", n)) { Ty::Extern(name) } else { Ty::Adt(name) }),
                 _ => Err(unsupported(t, &format!("type `{}` (not an integer/bool/Option/tuple/range and not in the configured struct/enum table)", name))),
             }
         }
@@ -238,7 +250,7 @@ pub enum Body<'b> {
 impl<'a> Tr<'a> {
     pub fn ty(&self, t: &Type) -> R<Ty> {
         let tabs = self.t;
-        conv_ty(t, &|n| tabs.adts.contains_key(n), &self.generic_tys, self.self_ty.as_deref())
+        conv_ty(t, &|n| tabs.adts.contains_key(n) || tabs.externs.contains_key(n.strip_prefix("extern:").unwrap_or(n)), &self.generic_tys, self.self_ty.as_deref())
     }
 
     pub fn fresh(&mut self, name: &str) -> String {
@@ -300,6 +312,20 @@ impl<'a> Tr<'a> {
                 };
                 let mut parts = vec![];
                 for (q, qt) in t.elems.iter().zip(tys.iter()) {
+                    parts.push(self.bind_pat(q, qt, env)?);
+                }
+                Ok(format!("({})", parts.join(", ")))
+            }
+            Pat::Slice(t) => {
+                let tys = match ty {
+                    Ty::Tuple(ts) if ts.len() == t.elems.len() => ts.clone(),
+                    _ => return Err(unsupported(p, &format!("slice pattern against a value of type {}", ty.show()))),
+                };
+                let mut parts = vec![];
+                for (q, qt) in t.elems.iter().zip(tys.iter()) {
+                    if matches!(q, Pat::Rest(_)) {
+                        return Err(unsupported(p, "`..` in a slice pattern"));
+                    }
                     parts.push(self.bind_pat(q, qt, env)?);
                 }
                 Ok(format!("({})", parts.join(", ")))
@@ -410,6 +436,9 @@ impl<'a> Tr<'a> {
         if segs.len() == 1 {
             let sn = self.resolve_type_name(&segs[0]);
             if let Some(s) = self.t.struct_info(&sn) {
+                if s.ctor == "-" {
+                    return Err(unsupported(at, &format!("`{}` has no constructor in the configured mapping", sn)));
+                }
                 return Ok((s.ctor.clone(), s.fields.iter().map(|f| (Some(f.name.clone()), f.ty.clone())).collect()));
             }
         }
